@@ -87,6 +87,10 @@ type Scenario struct {
 	Roles   []Role  `json:"roles"`
 	Exts    []Label `json:"exts"` // external actions, performed in this order, interleaved with run steps
 	Final   bool    `json:"final_graceful"`
+	// Sentinel: token of a top-level actor that only watches SentinelWatches at launch and is never terminated before
+	// the final shutdown (-1 = none); used by the C06 exactly-once monitor
+	Sentinel        int `json:"sentinel"`
+	SentinelWatches int `json:"sentinel_watches"`
 }
 
 type probe struct {
@@ -348,6 +352,8 @@ func (h *Harness) apply(dir string, record *supervision.AccidentRecord) {
 		record.Supervisor.Resume(record.Victim)
 	case "escalate":
 		record.Supervisor.Escalate(record)
+	case "restartall": // all-for-one: the supervisor restarts every child, healthy ones included
+		record.Supervisor.Restart(record.Supervisor.Children()...)
 	}
 }
 
